@@ -36,6 +36,23 @@ func oblProps(c *Contract, o *Obligation) []string {
 			ps = append(ps, p)
 		}
 	}
+	if o.Kind == "frame" {
+		// "nothing else changes" obligations decide the properties that are about that (run and
+		// statement independence, evaluation without side effects); a contract that serves other
+		// properties too does not make them depend on its frame
+		var fp []string
+		for _, p := range ps {
+			if p == "C10" || p == "C14" || p == "C11" {
+				fp = append(fp, p)
+			}
+		}
+		if strings.Contains(o.Name, ".globals.") {
+			return fp
+		}
+		if len(fp) > 0 {
+			return fp
+		}
+	}
 	return ps
 }
 
